@@ -338,7 +338,9 @@ def all_bool_opts(keys=("transformOn", "optimize", "mergeProps", "enableObjectSl
 # list itself (P) and nested scopes / functions that need temporaries of their own (N), in every order.  `@` is a running number.
 # ------------------------------------------------------------------------------------------------------------
 TEMP_PENDING = ["const head@ = <Foo>{title@()}</Foo>;", "(<Unk>{obj.render()}</Unk>);", "out.push(<Foo>{g@()}</Foo>, <Bar>{k@()}</Bar>);",
-                "let w@; w@ = <Comp a={<Foo>{h@()}</Foo>}>{f()}</Comp>;", "const frag@ = <><Comp>{f()}</Comp>t</>;"]
+                "let w@; w@ = <Comp a={<Foo>{h@()}</Foo>}>{f()}</Comp>;", "const frag@ = <><Comp>{f()}</Comp>t</>;",
+                # a captured COPY (`const _cv = function(){return cv}()`) left pending, not a `let _slot`
+                "let cv@ = 1; cv@ = 2; const cap@ = <Comp>{cv@}</Comp>;"]
 TEMP_NESTED = ["const rows@ = list.map(item => <Comp>{cell(item)}</Comp>);",                        # concise arrows: callback, plain, scoped-slot function child,
                "const r@ = () => <Foo>{f()}</Foo>;",                                                # v-slots entry, with a temporary in a parameter default, nested,
                "const t@ = <Foo rows={list}>{row => <Comp>{format(row)}</Comp>}</Foo>;",            # async, object property, inside a call argument
